@@ -45,6 +45,13 @@ mod generic;
 )))]
 use generic as impls;
 
+/// Verification hook: direct access to the inverse varblock transforms.
+#[cfg(jxl_oxide_verif)]
+pub(crate) mod verif_transform {
+    pub use super::generic::transform_varblocks as transform_varblocks_generic;
+    pub use super::impls::transform_varblocks as transform_varblocks_arch;
+}
+
 pub(crate) fn render_vardct<S: Sample>(
     frame: &IndexedFrame,
     lf_frame: Option<&Reference<S>>,
